@@ -7,7 +7,9 @@ pub fn run(ctx: &Ctx) -> &'static str {
     ctx.assume("an SRTLA ACK / NAK that several links could absorb: the oracle accepts any one holder (arrival link first for SRTLA ACKs), then follows the code's choice");
     ctx.assume("flush timing (batch threshold) is read off the real queue depth, it is not part of this property");
     for (file, body) in ctx.replay_files() {
-        if !ctx.replay_case::<acct::Case, _>("history", &file, &body, |c, o| acct::check(c, o, Which::C02)) {
+        if !ctx.replay_case::<acct::Case, _>("history", &file, &body, |c, o| acct::check(c, o, Which::C02))
+            && !ctx.replay_case::<crate::props::decide::Case, _>("real-routing", &file, &body, |c, o| crate::props::decide::check(c, o, crate::props::decide::Which::C02, ctx))
+        {
             eprintln!("replay {}: unknown part", file.display());
         }
     }
@@ -21,6 +23,14 @@ pub fn run(ctx: &Ctx) -> &'static str {
         ctx.tier.pick(100_000, 1_000_000),
         || acct::strategy(Which::C02, max_ops),
         |_| |c: &acct::Case, o: &mut crate::rt::Obs| acct::check(c, o, Which::C02),
+    );
+    let mo = ctx.tier.pick(50, 100);
+    ctx.explore(
+        "real-routing",
+        "the decision engine of C03/C04 (real handle_srt_packet with the real send_stall_probes): whenever a datagram was duplicated onto a stall-gated link, both links are flushed and the number must be in the in-flight set of every link it left on (count == logged numbers); non-trivial = such a duplicate",
+        ctx.tier.pick(40_000, 400_000),
+        || crate::props::decide::strategy(mo),
+        |_| |c: &crate::props::decide::Case, o: &mut crate::rt::Obs| crate::props::decide::check(c, o, crate::props::decide::Which::C02, ctx),
     );
     "exploration"
 }
